@@ -40,7 +40,8 @@ From Coq Require Import List String ZArith Bool.
 Require OV.Shape.Extra OV.Shape.ExtraProofs.       (* C09's Concat shape lemmas, read-only; not imported: names clash with Opt/Fold.v *)
 Require Import OV.Graph.Syntax OV.Graph.Sem OV.Graph.Names OV.Graph.SemProofs OV.Gen.FoldTables.
 Require Import OV.Opt.Fold OV.Opt.SemLemmas OV.Opt.FoldProofs OV.Opt.FoldNested OV.Opt.FoldTheorems.
-Require Import OV.Opt.Dce OV.Opt.DceProofs OV.Opt.Cse OV.Opt.CseProofs OV.Opt.Pipeline OV.Opt.PipelineProofs OV.Gen.OptPipeline OV.Opt.PipelineShape.
+Require Import OV.Opt.Dce OV.Opt.DceProofs OV.Opt.Cse OV.Opt.CseProofs OV.Opt.Use OV.Opt.UseProofs OV.Opt.Inits OV.Opt.InitsProofs OV.Opt.CseMoreProofs.
+Require Import OV.Opt.Pipeline OV.Opt.PipelineProofs OV.Gen.OptPipeline OV.Opt.PipelineShape OV.Gen.OptWiring OV.Opt.WiringShape.
 Import ListNotations.
 Local Open Scope list_scope.
 Local Open Scope string_scope.
@@ -279,3 +280,100 @@ Theorem C03_reference_attribute_nodes_kept_fixed : forall V ref_eval v_dtype v_d
   has_ref_attr n = true -> decide_variant V ref_eval v_dtype v_dims v_ints v_tensor pe cfg true isf st n = DKeep V RRefAttr st.
 Proof. exact decide_variant_keeps_reference_attributes. Qed.
 Print Assumptions C03_reference_attribute_nodes_kept_fixed.
+
+(* ---- graphs with their table of initializer values (Opt/Inits.v): the three initializer passes of optimize_ir.
+   A model means eval_graph in the environment binding every table name to tok_val of its token; const_oracle ties the Constant
+   kernel to tok_val.  Side conditions of the lift theorem (distinct table names, no lifted name bound inside the result, the
+   caller's environment does not bind table names) are CHECKED by the stage i_lift of the pipeline theorem below.
+   NOT covered: the renaming of a hoisted initializer on a name collision (hoist = None), de-duplication inside nested graphs
+   (nothing is left there after hoisting), the side conditions of dedup_guard (the model leaves the graph alone when they fail). *)
+Theorem C03_lift_constants_sound : forall V sem truth trip of_nat of_bool limit tok_val,
+  const_oracle V sem tok_val -> forall g t g' t', lift g t = Some (g', t') ->
+  nodupb (map fst t') = true -> (forall b, In b (binds_graph g') -> tab_get b (collect (depth_graph g) g) = None) ->
+  forall F outer args r, (forall x k, tab_get x t' = Some k -> lookup outer x = None) ->
+    eval_model V sem truth trip of_nat of_bool limit tok_val F outer g t args = Some r ->
+    eval_model V sem truth trip of_nat of_bool limit tok_val F outer g' t' args = Some r.
+Proof. exact lift_sound. Qed.
+Print Assumptions C03_lift_constants_sound.
+
+Theorem C03_lift_subgraph_initializers_sound : forall V sem truth trip of_nat of_bool limit g g', hoist g = Some g' ->
+  forall F e args r, eval_graph V sem truth trip of_nat of_bool limit F e g args = Some r ->
+                     eval_graph V sem truth trip of_nat of_bool limit F e g' args = Some r.
+Proof. exact hoist_sound. Qed.
+Print Assumptions C03_lift_subgraph_initializers_sound.
+
+Theorem C03_dedup_initializers_sound : forall V sem truth trip of_nat of_bool limit tok_val g t g' t', dedup g t = (g', t') ->
+  forall F outer args r, (forall x k, tab_get x t = Some k -> lookup outer x = None) ->
+    eval_model V sem truth trip of_nat of_bool limit tok_val F outer g t args = Some r ->
+    eval_model V sem truth trip of_nat of_bool limit tok_val F outer g' t' args = Some r.
+Proof. exact dedup_sound. Qed.
+Print Assumptions C03_dedup_initializers_sound.
+
+(* the key of the de-duplication is the token itself: element type, dims and bytes (0.0 / -0.0, NaN payloads, equal bytes under
+   another element type are different tokens) *)
+Theorem C03_dedup_key_exact : forall a b, token_eqb a b = true -> a = b.
+Proof. exact token_eqb_eq. Qed.
+Print Assumptions C03_dedup_key_exact.
+
+(* redirecting uses at every depth along a name map that touches no name bound inside the graph *)
+Theorem C03_use_redirection_sound : forall V sem truth trip of_nat of_bool limit rho F e e' g args r,
+  rel V rho e e' -> stable rho (binds_graph g) ->
+  eval_graph V sem truth trip of_nat of_bool limit F e g args = Some r ->
+  eval_graph V sem truth trip of_nat of_bool limit F e' (use_graph rho g) args = Some r.
+Proof. exact use_graph_sound. Qed.
+Print Assumptions C03_use_redirection_sound.
+
+(* ---- CSE beyond merge_guard: uses in nested graphs and graph outputs (canonical form), Identity path, rename path *)
+Theorem C03_cse_merge_sound_deep_partial : forall V sem truth trip of_nat of_bool limit F outer gi gn p a mid b suf go args r,
+  merge_guard_deep a mid b suf = true ->
+  eval_graph V sem truth trip of_nat of_bool limit (S F) outer (Graph gi gn ((p ++ a :: mid) ++ b :: suf) go) args = Some r ->
+  eval_graph V sem truth trip of_nat of_bool limit (S F) outer
+             (Graph gi gn ((p ++ a :: mid) ++ use_nodes (ren (combine (n_outs b) (n_outs a))) suf)
+                    (map (ren (combine (n_outs b) (n_outs a))) go)) args = Some r.
+Proof. exact merge_sound_deep. Qed.
+Print Assumptions C03_cse_merge_sound_deep_partial.
+
+Theorem C03_cse_identity_path_sound_partial : forall V sem truth trip of_nat of_bool limit,
+  (forall attrs v, sem "" "Identity" attrs [Some v] = Some [v]) ->
+  forall F outer gi gn p dom op ins attrs ya yb mid suf go args r,
+  is_if dom op = false -> is_loop dom op = false -> ya <> yb ->
+  disjoint [ya] (present ins) -> disjoint (defs_nodes mid) (present ins ++ [ya]) ->
+  disjoint (binds_nodes suf) ([ya] ++ [yb]) ->
+  eval_graph V sem truth trip of_nat of_bool limit (S F) outer
+             (Graph gi gn ((p ++ Node dom op ins [ya] attrs [] :: mid) ++ Node dom op ins [yb] attrs [] :: suf) go) args = Some r ->
+  eval_graph V sem truth trip of_nat of_bool limit (S F) outer
+             (Graph gi gn ((p ++ Node dom op ins [ya] attrs [] :: mid) ++
+                           Node "" "Identity" [Some ya] [yb] [] [] :: use_nodes (ren [(yb, ya)]) suf) go) args = Some r.
+Proof. exact merge_sound_identity. Qed.
+Print Assumptions C03_cse_identity_path_sound_partial.
+
+Theorem C03_cse_rename_path_sound_partial : forall V sem truth trip of_nat of_bool limit sigma N,
+  (forall x y, In x N -> In y N -> sigma x = sigma y -> x = y) ->
+  forall F outer g_can args r, incl (names_graph g_can) N ->
+  (forall x, In x N -> lookup outer (sigma x) = lookup outer x) ->
+  eval_graph V sem truth trip of_nat of_bool limit F outer g_can args = Some r ->
+  eval_graph V sem truth trip of_nat of_bool limit F outer (map_graph sigma g_can) args = Some r.
+Proof. exact merge_sound_rename. Qed.
+Print Assumptions C03_cse_rename_path_sound_partial.
+
+(* ---- optimize_ir over graphs with initializer values: DCE, lift constants, lift subgraph initializers, dedup and checked CSE
+   are the models; seven stages remain hypotheses *)
+Theorem C03_optimize_ir_with_initializers_sound_partial : forall V sem truth trip of_nat of_bool limit tok_val,
+  const_oracle V sem tok_val ->
+  forall inline_pass fold_pass rewrite_pass unused_functions unused_opsets output_fix name_fix,
+  istage_sound V sem truth trip of_nat of_bool limit tok_val inline_pass -> istage_sound V sem truth trip of_nat of_bool limit tok_val fold_pass ->
+  istage_sound V sem truth trip of_nat of_bool limit tok_val rewrite_pass -> istage_sound V sem truth trip of_nat of_bool limit tok_val unused_functions ->
+  istage_sound V sem truth trip of_nat of_bool limit tok_val unused_opsets -> istage_sound V sem truth trip of_nat of_bool limit tok_val output_fix ->
+  istage_sound V sem truth trip of_nat of_bool limit tok_val name_fix ->
+  forall f1 f2 f3 f4 f5 f6 inline num_iterations stop_if_no_change,
+    istage_sound V sem truth trip of_nat of_bool limit tok_val
+      (optimize_ir_istages inline_pass fold_pass rewrite_pass unused_functions unused_opsets output_fix name_fix
+                           f1 f2 f3 f4 f5 f6 inline num_iterations stop_if_no_change).
+Proof. exact optimize_ir_isound. Qed.
+Print Assumptions C03_optimize_ir_with_initializers_sound_partial.
+
+(* every option of optimize / optimize_ir / fold_constants reaches the pass it configures under the right keyword at every call
+   site, optimize and optimize_ir agree on the defaults (read from the current source: Gen/OptWiring.v) *)
+Theorem C03_source_option_wiring : forallb row_ok wiring && defaults_ok = true.
+Proof. exact source_option_wiring_ok. Qed.
+Print Assumptions C03_source_option_wiring.
